@@ -109,6 +109,28 @@ func noColumnsRefusal(p *prover, cf condFact) bool {
 }
 
 func isHeadersResult(v ssa.Value) bool {
+	return isHeadersResultD(v, 0)
+}
+
+// isHeadersResultD: the result of Headers(), possibly re-sliced from the front (h[:n]) or merged from such values.
+func isHeadersResultD(v ssa.Value, depth int) bool {
+	if depth > 4 {
+		return false
+	}
+	switch x := v.(type) {
+	case *ssa.Slice:
+		return x.Low == nil && isHeadersResultD(x.X, depth+1)
+	case *ssa.Phi:
+		if len(x.Edges) == 0 {
+			return false
+		}
+		for _, e := range x.Edges {
+			if e != v && !isHeadersResultD(e, depth+1) {
+				return false
+			}
+		}
+		return true
+	}
 	call, ok := v.(*ssa.Call)
 	if !ok {
 		return false
